@@ -185,16 +185,44 @@ theorem clz_ge_iff (x : Key) (m : Nat) (hm : m ≤ 64) : m ≤ x.clz.toNat ↔ x
         simpa [BitVec.le_def] using this
       omega
 
-theorem lcpKeyType_le (a b : Key) : lcpKeyType a b ≤ 8 := by
+theorem u8_of_lt {n : Nat} (h : n < 256) : u8 n = n := Nat.mod_eq_of_lt h
+
+theorem u16_of_lt {n : Nat} (h : n < 65536) : u16 n = n := Nat.mod_eq_of_lt h
+
+theorem lcpT_of_lt {n : Nat} (h : n < 4294967296) : lcpT n = n := Nat.mod_eq_of_lt h
+
+/-- the `unsigned char` return type of `lcpKeyType` loses nothing -/
+theorem lcpKeyType_def (a b : Key) : lcpKeyType a b = (a ^^^ b).clz.toNat / 8 := by
   unfold lcpKeyType
+  have hc : (a ^^^ b).clz.toNat ≤ 64 := by
+    have := BitVec.clz_le (x := a ^^^ b)
+    simpa [BitVec.le_def] using this
+  exact u8_of_lt (by omega)
+
+/-- the `unsigned char` return type of `lcpKeyDepth` loses nothing -/
+theorem lcpKeyDepth_def (a : Key) : lcpKeyDepth a = 8 - a.ctz.toNat / 8 := by
+  unfold lcpKeyDepth
+  exact u8_of_lt (by omega)
+
+theorem lcpKeyType_le (a b : Key) : lcpKeyType a b ≤ 8 := by
+  rw [lcpKeyType_def]
   have hc : (a ^^^ b).clz.toNat ≤ 64 := by
     have := BitVec.clz_le (x := a ^^^ b)
     simpa [BitVec.le_def] using this
   omega
 
+theorem lcpKeyDepth_le (a : Key) : lcpKeyDepth a ≤ 8 := by rw [lcpKeyDepth_def]; omega
+
+/-- storing the key-relative values into the `std::uint8_t` fields of `MKQSStep` loses nothing -/
+theorem u8_lcpKeyType (a b : Key) : u8 (lcpKeyType a b) = lcpKeyType a b :=
+  u8_of_lt (by have := lcpKeyType_le a b; omega)
+
+theorem u8_lcpKeyDepth (a : Key) : u8 (lcpKeyDepth a) = lcpKeyDepth a :=
+  u8_of_lt (by have := lcpKeyDepth_le a; omega)
+
 theorem lcpKeyType_ge_iff (a b : Key) (j : Nat) (hj : j ≤ 8) :
     j ≤ lcpKeyType a b ↔ a.toNat / 2 ^ (64 - 8 * j) = b.toNat / 2 ^ (64 - 8 * j) := by
-  unfold lcpKeyType
+  rw [lcpKeyType_def]
   rw [Nat.le_div_iff_mul_le (by omega), Nat.mul_comm, clz_ge_iff _ _ (by omega)]
   have hpos : 0 < 2 ^ (64 - 8 * j) := Nat.pow_pos (by omega)
   rw [← Nat.div_eq_zero_iff_lt hpos, ← Nat.shiftRight_eq_div_pow, ← BitVec.toNat_ushiftRight,
@@ -314,7 +342,7 @@ theorem packNat_eq_zero_iff (l : List UInt8) : packNat l = 0 ↔ l = List.replic
 /-- a NUL-free string that ends inside the window: `lcpKeyDepth` is its length -/
 theorem lcpKeyDepth_eq {a : Key} {s : List UInt8} (ha : a.toNat = packNat (pad s 8)) (hs : ∀ c ∈ s, c ≠ 0)
     (hl : s.length < 8) : lcpKeyDepth a = s.length := by
-  unfold lcpKeyDepth
+  rw [lcpKeyDepth_def]
   have hpad : pad s 8 = s ++ List.replicate (8 - s.length) 0 := by
     simp [pad, List.take_of_length_le (by omega : s.length ≤ 8)]
   have key : ∀ j, j ≤ 8 → (j ≤ a.ctz.toNat / 8 ↔ j ≤ 8 - s.length) := by
